@@ -317,6 +317,7 @@ func runC16(c *Ctx, r *Report) {
 	c16NonNumbers(c, r, reg)
 	c16Verbs(c, r)
 	c16FractionTable(c, r)
+	c16SignRestored(c, r)
 }
 
 // ---- R16.3 ------------------------------------------------------------------------
